@@ -62,7 +62,7 @@ def main():
             na.append({"property_id": pid, "reason": NOT_YET.get(pid, "not claimed yet: model and theorems for this property are still under construction (see DESIGN.md section 6); no check is registered until they exist")})
     m = {
         "version": 1,
-        "setup_cmd": "cd /verif && bin/coqmk && cd coq && timeout 3000 make -j16",
+        "setup_cmd": "cd /verif && bin/coqmk && cd coq && (timeout 3300 make -k -j16 COQC='timeout 1500 coqc' > /verif/coq/setup.log 2>&1; tail -3 /verif/coq/setup.log; true)",
         "hooks": {"guard": "SPEC_CLASSES_VERIF", "enable": "no source hooks: the harness observes the library from outside (private fields, tracing); bin/check exports SPEC_CLASSES_VERIF=1 for uniformity",
                   "baseline_off_cmd": "cd /repo && /venv/bin/python -m pytest -ra -q -p no:cacheprovider --timeout=900 --continue-on-collection-errors",
                   "source_commits": [], "add_only": True},
